@@ -128,8 +128,8 @@ def plans(tier, seed):
     small = ['gdown4', 'gdet', 'betaup3', 'betax', 'Tdown4', 'Ttrace',
              's_Riemann_down3', 's_Ricci_down3', 'st_Ricci_down4',
              'st_Ricci_down3', 'st_Riemann_down4', 'st_Weyl_down4', 'rho',
-             'rho0', 'eps', 'Kretschmann', 'Weyl_Psi', 'Hamiltonian',
-             'h:s_curl', 'h:tetrad_base']
+             'rho0', 'eps', 'Kretschmann', 'Weyl_Psi', 'Psi4_lm',
+             'Hamiltonian', 'h:s_curl', 'h:tetrad_base']
     P = []
     N, p = 6, 2
     dflt = (20, 'never')
